@@ -1637,7 +1637,8 @@ pub fn gen_history(rng: &mut Rng, len: usize, ntid: u8, emphasis: &str) -> Histo
             "auth" => match w {
                 0..=17 => Op::Send { kind: MsgKind::Request, tid, dest: rng.below(NCORE as u64) as u8, seal: *rng.pick(&[Sealing::None, Sealing::Sha1, Sealing::Sha256, Sealing::Both, Sealing::Sha1]), payload: rng.below(600) as u16 },
                 18..=57 => Op::Response { tid, from: rng.below(NCORE as u64) as u8, error: rng.chance(1, 4), seal: gen_resp_seal(rng), fp: rng.chance(1, 3) },
-                58..=65 => Op::SetRemote(rng.below(3) as u8),
+                58..=63 => Op::SetRemote(rng.below(3) as u8),
+                64..=65 => Op::SetLocal(rng.below(3) as u8),
                 66..=89 => gen_poll(rng),
                 90..=92 => Op::Incoming { request: rng.chance(1, 2), tid, from: rng.below(NCORE as u64) as u8 },
                 93..=94 => Op::Cancel(tid),
